@@ -1,5 +1,6 @@
 /-
-`AdjustPool` on the invariant bundle, outside the F-farm-2 class (`C06.EndTopUp`).
+`AdjustPool` (as repaired by commit 966aea0: end height bounded by every reward rule) on the
+invariant bundle.
 -/
 import Irismod.Proofs.FarmCreate
 
